@@ -40,6 +40,9 @@ type local struct {
 	prevMask net.IPMask
 	prevSet  bool
 	cases    int
+	// one buffer per address length, refilled for every address case, and what it held before
+	abufs map[int][]byte
+	aprev map[int][]byte
 }
 
 func (l *local) flush(key string) {
@@ -52,6 +55,19 @@ func (l *local) viol(sig, desc string, c any) { l.r.Violation(sig, desc, c) }
 
 func (l *local) addrCase(ip net.IP) {
 	c := map[string]any{"kind": "addr", "ip": []byte(ip), "nil": ip == nil}
+	if n := len(ip); n > 0 {
+		if l.abufs == nil {
+			l.abufs, l.aprev = map[int][]byte{}, map[int][]byte{}
+		}
+		if l.abufs[n] == nil {
+			l.abufs[n] = make([]byte, n)
+		} else if l.aprev[n] != nil {
+			c["prev_ip"] = l.aprev[n]
+		}
+		l.aprev[n] = slices.Clone([]byte(ip))
+		copy(l.abufs[n], ip)
+		ip = net.IP(l.abufs[n]) // the caller's one buffer, holding this case's address now
+	}
 	in := slices.Clone(ip)
 	b4, is4 := as4(ip)
 	// IPToAddr v4
@@ -469,6 +485,9 @@ func TestConv(t *testing.T) {
 		}
 		switch rc.Kind {
 		case "addr":
+			if len(rc.PIP) == len(ip) && len(ip) > 0 {
+				l.addrCase(net.IP(rc.PIP)) // the buffer's previous contents are part of the case
+			}
 			l.addrCase(ip)
 		case "netaddr":
 			l.netAddrCase(ip, rc.Zone, rc.Port)
